@@ -9,7 +9,8 @@ def same(a, b):
     if isinstance(a, float) and math.isnan(a) and math.isnan(b): return True
     return a == b
 
-VALUES = {'i0': 0, 'ibig': 2 ** 70, 'ineg': -(10 ** 30), 's': 'x', 'sempty': '', 'suni': 'zé中\U0001f600', 'snum': '12', 'strue': 'True',
+VALUES = {'i0': 0, 'i1': 1, 'f0': 0.0, 'f1': 1.0, 'ibig': 2 ** 70,          # 0 / 0.0 / False and 1 / 1.0 / True are equal and hash alike: a cache keyed on the value must not confuse them
+          'ineg': -(10 ** 30), 's': 'x', 'sempty': '', 'suni': 'zé中\U0001f600', 'snum': '12', 'strue': 'True',
           'f': 1.5, 'finf': float('inf'), 'fnan': float('nan'), 'fsmall': 5e-324, 'bt': True, 'bf': False,
           'y': b'abcd', 'yempty': b'', 'ybin': b'\xff\xfe\x00', 'y3': b'abc'}
 
